@@ -416,6 +416,23 @@ func TestC09Values(t *testing.T) {
 			roundTrip(run, bus, mem, strEv(str(r)), "named-string", 1)
 		case 9:
 			roundTrip(run, bus, mem, mapEv{str(r): i, "k": -i}, "named-map", 1)
+			// byte-slice events: the JSON encoding of []byte is a base64 string, also when the bytes
+			// happen to be JSON text; json.RawMessage events are stored as their (compacted) document,
+			// and the record must not alias the publisher's buffer
+			texts := []string{" [1, 2, 3] ", "42", "true", `{"id": 7}`, "not json", ""}
+			roundTrip(run, bus, mem, []byte(texts[r.IntN(len(texts))]), "[]byte", 2)
+			js, _ := json.Marshal(str(r))
+			buf := []byte(fmt.Sprintf(` {"id": %d, "s": %s} `, i, js))
+			raw := json.RawMessage(buf)
+			want, _ := json.Marshal(raw)
+			roundTrip(run, bus, mem, raw, "json.RawMessage", 2)
+			for k := range buf {
+				buf[k] = 'x' // the publisher reuses its buffer
+			}
+			evs, _, _ := mem.Read(context.Background(), ebu.OffsetOldest, 0)
+			if last := evs[len(evs)-1]; !jgen.JSONEqual(last.Data, want) {
+				run.Violation("record:aliases-publisher-buffer", fmt.Sprintf("a json.RawMessage event was stored as %s; after the publisher reused its buffer the record reads %s", want, last.Data), map[string]any{"shape": "json.RawMessage"})
+			}
 		}
 	}
 }
